@@ -4,7 +4,7 @@ import itertools
 import bibtexparser
 from bibtexparser.splitter import Splitter
 
-from .. import dialect, spaces
+from .. import bigdocs, dialect, spaces
 from ..engine import chunks, seq_iter, seq_shards
 
 ID = "C02"
@@ -31,6 +31,7 @@ def bounds(tier):
         "L1_core_max_len": 8 if tier == "quick" else 10,
         "L2_entries": "6 heads x 4 keys x field lists (<=2 over 17 values, 3 over 6) x 2 comma forms x 5 whitespace forms + single-gap family",
         "L3_max_blocks": 2 if tier == "quick" else 3,
+        "big_documents_entries": bigdocs.SIZES_QUICK if tier == "quick" else bigdocs.SIZES_THOROUGH,
         "L4_alphabet": spaces.SIGMA_DOC,
         "L4_max_len": 5 if tier == "quick" else 6,
     }
@@ -192,6 +193,7 @@ def shards(tier):
     out += [("L2", i) for i in range(len(HEADS))]
     out += [("L3", i) for i in range(NCAT)]
     out += [("L4", s) for s in seq_shards(spaces.SIGMA_DOC, 5 if tier == "quick" else 6)]
+    out += [("big", n, v) for n in (bigdocs.SIZES_QUICK if tier == "quick" else bigdocs.SIZES_THOROUGH) for v in (0, 1)]
     return out
 
 
@@ -286,6 +288,10 @@ def run_shard(shard, tier, acc):
         for text, exp in l3_cases(shard[1], tier):
             acc.count("L3_documents")
             check_doc(text, exp, acc, "L3")
+    elif kind == "big":
+        text, exp = bigdocs.document(shard[1], shard[2])
+        acc.count("big_documents")
+        check_doc(text, exp, acc, f"big:{shard[1]}")
     elif kind == "L4":
         for toks in seq_iter(spaces.SIGMA_DOC, shard[1]):
             text = "".join(toks)
